@@ -138,6 +138,8 @@ def nd_getitem(ex, arr, key, prefer_vec=False):
             return bool_index_axis0(ex, arr, key)
         raise Unsupported("boolean index of lower rank")
     if isinstance(key, Vec) and key.kind == "array" and key.items and all(isinstance(x, bool) or is_sym_bool(x) for x in key.items):
+        if all(isinstance(x, bool) for x in key.items) and arr.ndim == 1 and arr.shape[0] == len(key.items):
+            return Vec([arr.elem((i,)) for i, x in enumerate(key.items) if x], "array")      # concrete mask: plain selection
         raise Unsupported("boolean Vec index")
     if isinstance(key, MaskedSel):
         raise Unsupported("index by masked selection")
@@ -1048,3 +1050,32 @@ def dtype_kind(ex, self):
 @attr("DType", "itemsize")
 def dtype_itemsize(ex, self):
     return {"int": 8, "bool": 1, "f8": 8, "f4": 4}.get(self.name, 8)
+
+
+@lib(NP, "argsort")
+def np_argsort(ex, args, kw):
+    """argsort of a short concrete-length vector of symbolic numbers: position p holds the index whose (stable) rank is p.
+    (numpy's default sort is not stable: callers must not depend on the order of ties; tasks assume distinct keys.)"""
+    v = args[0]
+    items = v.items if isinstance(v, Vec) else (list(v) if isinstance(v, (list, tuple)) else None)
+    if items is None and isinstance(v, NDArray) and v.ndim == 1 and isinstance(as_const(v.shape[0]) if is_z3(v.shape[0]) else v.shape[0], int):
+        nn = as_const(v.shape[0]) if is_z3(v.shape[0]) else v.shape[0]
+        items = [v.elem((i,)) for i in range(nn)]
+    if items is None:
+        raise Unsupported(f"np.argsort of a symbolic-length array ({type(v).__name__})")
+    n = len(items)
+    if n > 5:
+        raise Unsupported("np.argsort of more than 5 symbolic elements")
+    if all(not is_z3(x) for x in items):
+        import numpy as _np
+        return Vec([int(i) for i in _np.argsort(_np.array(items), kind="stable")], "array")
+    a = [to_z3(x) for x in items]
+    rank = [z3.Sum([z3.If(z3.Or(a[j] < a[i], z3.And(a[j] == a[i], j < i)), 1, 0) for j in range(n) if j != i]) if n > 1 else z3.IntVal(0)
+            for i in range(n)]
+    out = []
+    for p in range(n):
+        e = z3.IntVal(n - 1)
+        for i in range(n - 2, -1, -1):
+            e = z3.If(rank[i] == p, z3.IntVal(i), e)
+        out.append(simp(e))
+    return Vec(out, "array")
